@@ -1,6 +1,7 @@
 """Per-property check plans: which model configurations TLC explores and on
 which systems the emitted behaviours are replayed."""
-from .core import Report, tour_stage, walk_stage, chunk_stage, crash_stage
+from .core import Report, tour_stage, walk_stage, chunk_stage, crash_stage, conc_stage
+from . import core
 
 ALL4 = ["mem", "bolt", "multimem", "multios"]
 CORE_OPS = {"CreateBucket", "HeadBucket", "DeleteBucket", "ListBuckets", "PutObject", "GetObject", "HeadObject",
@@ -406,4 +407,30 @@ def c15(tier, seed, work):
     return rep
 
 
-PLANS = {"C11": c11, "C15": c15, "C01": c01, "C12": c12, "C08": c08, "C16": c16, "C17": c17, "C02": c02, "C05": c05, "C03": c03, "C04": c04, "C13": c13, "C06": c06, "C14": c14}
+def c07(tier, seed, work):
+    rep = Report("C07", tier, seed)
+    thorough = tier == "thorough"
+    core.build_harness(race=True)
+    allsys = ["mem", "bolt", "multimem", "multios", "singlemem"]
+    # 2-4 clients on 2 keys (incl. versioned buckets and multipart on s3mem) + every slow-uploader / slow-reader
+    # scenario; exact (breadth-first) linearizability check of every history
+    conc_stage(rep, work, "small-exact", allsys, [2, 3, 4], runs=6 if thorough else 3, ops=12, keys=2, gated=True)
+    # the same under the Go race detector with more clients; first-witness (depth-first) search
+    conc_stage(rep, work, "race-6-8", ["mem", "bolt", "multimem"], [6, 8], runs=3 if thorough else 2, ops=8, keys=3,
+               gated=False, race=True, witness=True)
+    if thorough:
+        conc_stage(rep, work, "race-16", allsys, [12, 16], runs=2, ops=6, keys=3, gated=False, race=True, witness=True)
+        for s2 in range(3):
+            rep.seed = seed + 100 + s2
+            conc_stage(rep, work, "small-exact-seed%d" % s2, allsys, [2, 3, 4], runs=6, ops=14, keys=2, gated=True)
+        rep.seed = seed
+    rep.assumptions += [
+        "the data-race and deadlock clauses are observed (Go race detector, request deadlines) while histories are recorded; "
+        "linearizability, torn reads, lost updates are decided by TLC on the recorded histories",
+        "copy is modelled as two linearization points (read source, write destination), as the code performs it",
+        "histories with more than 4 clients are checked by first-witness search; an undecided history is counted inconclusive, never a violation",
+    ]
+    return rep
+
+
+PLANS = {"C11": c11, "C07": c07, "C15": c15, "C01": c01, "C12": c12, "C08": c08, "C16": c16, "C17": c17, "C02": c02, "C05": c05, "C03": c03, "C04": c04, "C13": c13, "C06": c06, "C14": c14}
